@@ -502,4 +502,250 @@ theorem flushObj_deleted_rows {sch : Schema} {w : World} {o : ObjId} {ids : List
   simp only [hst, hpk]
   exact getRow_delete w.txn k pk'
 
+/-! ## 6. the whole queue: no INSERT is lost -/
+
+theorem saveCreated_frame (s : Sess) (o : ObjId) (id : Option Int) :
+    (saveCreated s o id).1.n = s.n ∧ ∀ x, x ≠ o → (saveCreated s o id).1.obj x = s.obj x := by
+  unfold saveCreated
+  simp only
+  split
+  · exact ⟨rfl, fun _ _ => rfl⟩
+  · split
+    · exact ⟨rfl, fun _ _ => rfl⟩
+    · split
+      · exact ⟨rfl, fun x hx => setObj_other _ _ _ _ hx⟩
+      · split
+        · exact ⟨rfl, fun _ _ => rfl⟩
+        · split
+          · split
+            · exact ⟨rfl, fun x hx => setObj_other _ _ _ _ hx⟩
+            · exact ⟨rfl, fun _ _ => rfl⟩
+          · exact ⟨rfl, fun x hx => setObj_other _ _ _ _ hx⟩
+
+theorem saveUpdated_frame (s : Sess) (o : ObjId) :
+    (saveUpdated s o).1.n = s.n ∧ ∀ x, x ≠ o → (saveUpdated s o).1.obj x = s.obj x := by
+  unfold saveUpdated
+  simp only
+  split
+  · exact ⟨rfl, fun _ _ => rfl⟩
+  · split
+    · exact ⟨rfl, fun _ _ => rfl⟩
+    · exact ⟨rfl, fun x hx => setObj_other _ _ _ _ hx⟩
+
+theorem saveDeleted_frame (s : Sess) (o : ObjId) :
+    (saveDeleted s o).1.n = s.n ∧ ∀ x, x ≠ o → (saveDeleted s o).1.obj x = s.obj x := by
+  unfold saveDeleted
+  simp only
+  split
+  · exact ⟨rfl, fun _ _ => rfl⟩
+  · split
+    · exact ⟨rfl, fun _ _ => rfl⟩
+    · exact ⟨rfl, fun x hx => setObj_other _ _ _ _ hx⟩
+
+/-- one `_save_()` changes no other object of the session and keeps the session's index invariant -/
+theorem flushObj_sess {sch : Schema} (w : World) (o : ObjId) (ids : List Int) (hI : Inv sch w.sess) :
+    Inv sch (flushObj sch w o ids).w.sess ∧ (flushObj sch w o ids).w.sess.n = w.sess.n ∧
+      ∀ x, x ≠ o → (flushObj sch w o ids).w.sess.obj x = w.sess.obj x := by
+  have hins : ∀ pk id ids', Inv sch (flushInsert sch w o pk id ids').w.sess ∧ (flushInsert sch w o pk id ids').w.sess.n = w.sess.n ∧
+      ∀ x, x ≠ o → (flushInsert sch w o pk id ids').w.sess.obj x = w.sess.obj x := by
+    intro pk id ids'
+    unfold flushInsert
+    split
+    · exact ⟨hI, rfl, fun _ _ => rfl⟩
+    · split
+      · exact ⟨hI, rfl, fun _ _ => rfl⟩
+      · exact ⟨saveCreated_inv hI o id, (saveCreated_frame w.sess o id).1, (saveCreated_frame w.sess o id).2⟩
+  unfold flushObj
+  simp only
+  split
+  · split
+    · exact hins _ _ _
+    · split
+      · split <;> exact ⟨hI, rfl, fun _ _ => rfl⟩
+      · exact hins _ _ _
+  · split
+    · exact ⟨hI, rfl, fun _ _ => rfl⟩
+    · split
+      · split
+        · exact ⟨hI, rfl, fun _ _ => rfl⟩
+        · split
+          · exact ⟨hI, rfl, fun _ _ => rfl⟩
+          · exact ⟨saveUpdated_inv hI o, (saveUpdated_frame w.sess o).1, (saveUpdated_frame w.sess o).2⟩
+      · exact ⟨saveUpdated_inv hI o, (saveUpdated_frame w.sess o).1, (saveUpdated_frame w.sess o).2⟩
+  · split
+    · exact ⟨hI, rfl, fun _ _ => rfl⟩
+    · exact ⟨saveDeleted_inv hI o, (saveDeleted_frame w.sess o).1, (saveDeleted_frame w.sess o).2⟩
+  · exact ⟨hI, rfl, fun _ _ => rfl⟩
+
+theorem saveCreated_result (s : Sess) (o : ObjId) (id : Option Int) (ho : o < s.n) (hst : (s.obj o).status = .created)
+    (herr : (saveCreated s o id).2.err = none) :
+    ((saveCreated s o id).1.obj o).status = .inserted ∧
+    (∀ k, (s.obj o).pk = some k → ((saveCreated s o id).1.obj o).pk = some k) ∧
+    ((s.obj o).pk = none → ∀ i, id = some i → ((saveCreated s o id).1.obj o).pk = some [i]) := by
+  unfold saveCreated at herr ⊢
+  have h1 : ¬ o ≥ s.n := Nat.not_le_of_lt ho
+  simp only [h1, if_false, hst, ne_eq, not_true_eq_false] at herr ⊢
+  cases hpk : (s.obj o).pk with
+  | some k => simp [hpk]
+  | none =>
+    simp only [hpk] at herr ⊢
+    cases id with
+    | none => simp at herr
+    | some i =>
+      simp only at herr ⊢
+      cases hg : s.pkIx.get [i] with
+      | none => simp [hg]
+      | some o2 =>
+        simp only [hg] at herr ⊢
+        by_cases e : o2 = o
+        · simp [e]
+        · simp [e] at herr
+
+/-- a NEW object saved without error: its row is in the session's view under the key it now holds (explicit or generated) -/
+theorem flushObj_created_result {sch : Schema} (w : World) (o : ObjId) (ids : List Int) (ho : o < w.sess.n)
+    (hst : (w.sess.obj o).status = .created) (he : (flushObj sch w o ids).err = none) :
+    ∃ k, ((flushObj sch w o ids).w.sess.obj o).pk = some k ∧ ((flushObj sch w o ids).w.sess.obj o).status.holdsPk = true ∧
+      ∀ pk', getRow (flushObj sch w o ids).w.txn pk' = if pk' = k then some (objRow (w.sess.obj o) k) else getRow w.txn pk' := by
+  obtain ⟨k, hk0, hrows⟩ := flushObj_created_rows hst he
+  have hsave : ∃ id : Option Int, (flushObj sch w o ids).w.sess = (saveCreated w.sess o id).1 ∧ (saveCreated w.sess o id).2.err = none ∧
+      ((w.sess.obj o).pk = none → ∃ i, id = some i ∧ k = [i]) := by
+    unfold flushObj at he ⊢
+    simp only [hst] at he ⊢
+    rcases hk0 with hp | ⟨hp, i, r, hids, hk⟩
+    · simp only [hp] at he ⊢
+      unfold flushInsert at he ⊢
+      cases hi : dbInsert sch w.txn (objRow (w.sess.obj o) k) with
+      | none => simp [hi] at he
+      | some t' =>
+        simp only [hi] at he ⊢
+        cases hs : (saveCreated w.sess o none).2.err with
+        | some e => simp [hs] at he
+        | none => exact ⟨none, by simp [hs], hs, fun h => by cases h⟩
+    · subst hk hids
+      simp only [hp] at he ⊢
+      unfold flushInsert at he ⊢
+      cases hi : dbInsert sch w.txn (objRow (w.sess.obj o) [i]) with
+      | none => simp [hi] at he
+      | some t' =>
+        simp only [hi] at he ⊢
+        cases hs : (saveCreated w.sess o (some i)).2.err with
+        | some e => simp [hs] at he
+        | none => exact ⟨some i, by simp [hs], hs, fun _ => ⟨i, rfl, rfl⟩⟩
+  obtain ⟨id, hsess, herr, hauto⟩ := hsave
+  obtain ⟨r1, r2, r3⟩ := saveCreated_result w.sess o id ho hst herr
+  refine ⟨k, ?_, by rw [hsess, r1]; rfl, hrows⟩
+  rw [hsess]
+  cases hp : (w.sess.obj o).pk with
+  | some k1 =>
+    rcases hk0 with h | ⟨h, _⟩
+    · rw [hp] at h; cases h; exact r2 k hp
+    · rw [hp] at h; cases h
+  | none =>
+    obtain ⟨i, a, b⟩ := hauto hp
+    rw [b]; exact r3 hp i a
+
+/-- one successful `_save_()` of `o` leaves the row of every OTHER object that holds a primary key where it was -/
+theorem flushObj_keeps_row {sch : Schema} (w : World) (o : ObjId) (ids : List Int) (hI : Inv sch w.sess) (ho : o < w.sess.n)
+    (he : (flushObj sch w o ids).err = none) (x : ObjId) (hx : x < w.sess.n) (hxo : x ≠ o) (k : KeyVal)
+    (hpk : (w.sess.obj x).pk = some k) (hh : (w.sess.obj x).status.holdsPk = true) :
+    getRow (flushObj sch w o ids).w.txn k = getRow w.txn k := by
+  obtain ⟨hI', hn', hfr⟩ := flushObj_sess w o ids hI
+  -- in the session AFTER the save `x` is unchanged and still holds `k`
+  have hx' : x < (flushObj sch w o ids).w.sess.n := hn' ▸ hx
+  have hpk' : ((flushObj sch w o ids).w.sess.obj x).pk = some k := by rw [hfr x hxo]; exact hpk
+  have hh' : ((flushObj sch w o ids).w.sess.obj x).status.holdsPk = true := by rw [hfr x hxo]; exact hh
+  cases hst : (w.sess.obj o).status with
+  | created =>
+    obtain ⟨k0, hopk, host, hrows⟩ := flushObj_created_result w o ids ho hst he
+    rw [hrows k]
+    have hne : k ≠ k0 := by
+      intro e; subst e
+      have := hI'.pk_complete o k (hn' ▸ ho) hopk host
+      rw [hI'.pk_complete x k hx' hpk' hh'] at this
+      exact hxo (Option.some.inj this)
+    simp [hne]
+  | modified =>
+    cases hpo : (w.sess.obj o).pk with
+    | none => unfold flushObj at he; simp [hst, hpo] at he
+    | some k0 =>
+      have hne : k ≠ k0 := by
+        intro e; subst e
+        have a := hI.pk_complete o k ho hpo (by rw [hst]; rfl)
+        rw [hI.pk_complete x k hx hpk hh] at a
+        exact hxo (Option.some.inj a)
+      by_cases hw : (List.range sch.nattrs).any (w.sess.obj o).wbits = true
+      · obtain ⟨old, _, hrows⟩ := flushObj_modified_rows hst hpo hw he
+        rw [hrows k]; simp [hne]
+      · unfold flushObj; simp [hst, hpo, hw]
+  | markedToDelete =>
+    cases hpo : (w.sess.obj o).pk with
+    | none => unfold flushObj at he; simp [hst, hpo] at he
+    | some k0 =>
+      have hne : k ≠ k0 := by
+        intro e; subst e
+        have a := hI.pk_complete o k ho hpo (by rw [hst]; rfl)
+        rw [hI.pk_complete x k hx hpk hh] at a
+        exact hxo (Option.some.inj a)
+      rw [flushObj_deleted_rows hst hpo k]; simp [hne]
+  | loaded => unfold flushObj at he; simp [hst] at he
+  | inserted => unfold flushObj at he; simp [hst] at he
+  | updated => unfold flushObj at he; simp [hst] at he
+  | deleted => unfold flushObj at he; simp [hst] at he
+  | cancelled => unfold flushObj at he; simp [hst] at he
+
+/-- the rest of the queue leaves the row of an object that is not in it where it was -/
+theorem flushGo_keeps_row {sch : Schema} (q : List ObjId) (w : World) (ids : List Int) (sv : Bool) (hI : Inv sch w.sess)
+    (hq : ∀ o, o ∈ q → o < w.sess.n) (w' : World) (sv' : Bool) (hg : flushGo sch q w ids sv = (w', none, sv'))
+    (x : ObjId) (hx : x < w.sess.n) (hxq : x ∉ q) (k : KeyVal) (hpk : (w.sess.obj x).pk = some k)
+    (hh : (w.sess.obj x).status.holdsPk = true) :
+    getRow w'.txn k = getRow w.txn k ∧ w'.sess.obj x = w.sess.obj x := by
+  induction q generalizing w ids sv with
+  | nil => simp only [flushGo, Prod.mk.injEq] at hg; rw [← hg.1]; exact ⟨rfl, rfl⟩
+  | cons o q ih =>
+    unfold flushGo at hg
+    simp only at hg
+    cases he : (flushObj sch w o ids).err with
+    | some e => simp [he] at hg
+    | none =>
+      simp only [he] at hg
+      have ho := hq o List.mem_cons_self
+      have hxo : x ≠ o := fun e => hxq (e ▸ List.mem_cons_self)
+      obtain ⟨hI1, hn1, hfr⟩ := flushObj_sess w o ids hI
+      have hrow := flushObj_keeps_row w o ids hI ho he x hx hxo k hpk hh
+      obtain ⟨a, b⟩ := ih (flushObj sch w o ids).w (flushObj sch w o ids).ids (sv || (flushObj sch w o ids).saved) hI1
+        (fun y hy => hn1 ▸ hq y (List.mem_cons_of_mem _ hy)) hg (hn1 ▸ hx) (fun h => hxq (List.mem_cons_of_mem _ h))
+        (by rw [hfr x hxo]; exact hpk) (by rw [hfr x hxo]; exact hh)
+      exact ⟨a.trans hrow, b.trans (hfr x hxo)⟩
+
+/-- NO INSERT IS LOST: after a flush loop that ran without error, every object of the queue that was `created` has its row in
+    the table the session sees, under the primary key it now holds (explicit or generated), with the values it had -/
+theorem flushGo_inserts {sch : Schema} (q : List ObjId) (hnd : q.Nodup) (w : World) (ids : List Int) (sv : Bool) (hI : Inv sch w.sess)
+    (hq : ∀ o, o ∈ q → o < w.sess.n) (w' : World) (sv' : Bool) (hg : flushGo sch q w ids sv = (w', none, sv'))
+    (o : ObjId) (ho : o ∈ q) (hst : (w.sess.obj o).status = .created) :
+    ∃ k, (w'.sess.obj o).pk = some k ∧ getRow w'.txn k = some (objRow (w.sess.obj o) k) := by
+  induction q generalizing w ids sv with
+  | nil => cases ho
+  | cons p q ih =>
+    have hp : p ∉ q := (List.nodup_cons.mp hnd).1
+    have hnd' := (List.nodup_cons.mp hnd).2
+    unfold flushGo at hg
+    simp only at hg
+    cases he : (flushObj sch w p ids).err with
+    | some e => simp [he] at hg
+    | none =>
+      simp only [he] at hg
+      obtain ⟨hI1, hn1, hfr⟩ := flushObj_sess w p ids hI
+      have hq1 : ∀ y, y ∈ q → y < (flushObj sch w p ids).w.sess.n := fun y hy => hn1 ▸ hq y (List.mem_cons_of_mem _ hy)
+      rcases List.mem_cons.mp ho with e | hoq
+      · subst e
+        obtain ⟨k, hk1, hk2, hrows⟩ := flushObj_created_result w o ids (hq o List.mem_cons_self) hst he
+        obtain ⟨a, b⟩ := flushGo_keeps_row q _ _ _ hI1 hq1 w' sv' hg o (hn1 ▸ hq o List.mem_cons_self) hp k hk1 hk2
+        refine ⟨k, by rw [b]; exact hk1, ?_⟩
+        rw [a, hrows k]; simp
+      · have hop : o ≠ p := fun e => hp (e ▸ hoq)
+        have := ih hnd' (flushObj sch w p ids).w (flushObj sch w p ids).ids (sv || (flushObj sch w p ids).saved) hI1 hq1 hg hoq
+          (by rw [hfr o hop]; exact hst)
+        rw [hfr o hop] at this
+        exact this
+
 end PonyVerif.Model.KeyDb
